@@ -452,6 +452,18 @@ findInsertionPointBinarySearch(
 
 
 
+// Normalize so that a document node owns itself, which is not
+// how DOM works.  (The nodes of a document fragment are owned by
+// the fragment's document, and so is the fragment.)
+static inline const XalanNode*
+getNormalizedOwner(const XalanNode&     node)
+{
+    return node.getNodeType() == XalanNode::DOCUMENT_NODE ?
+                &node : node.getOwnerDocument();
+}
+
+
+
 template<class PredicateType>
 inline bool
 findInsertionPointLinearSearch(
@@ -469,6 +481,13 @@ findInsertionPointLinearSearch(
 
     NodeListIteratorType    current(begin);
 
+    // The nodes of one document are kept together in the list, in
+    // document order.  Documents are ordered by first appearance.
+    const XalanNode* const  theNodeOwner = getNormalizedOwner(*node);
+
+    // Set when we've reached the nodes of this node's document...
+    bool    fFoundOwner = false;
+
     // Loop, looking for the node, or for a
     // node that's before the one we're adding...
     while(current != end)
@@ -483,15 +502,34 @@ findInsertionPointLinearSearch(
 
             break;
         }
-        else if (isNodeAfterPredicate(*node, *child) == false)
+        else if (getNormalizedOwner(*child) != theNodeOwner)
         {
-            // We found the insertion point...
-            break;
+            // A node from another document.  If we've already passed
+            // the nodes of this node's document, the node belongs at
+            // their end.  Otherwise, keep looking for them.
+            if (fFoundOwner == true)
+            {
+                break;
+            }
         }
         else
         {
-            ++current;
+            fFoundOwner = true;
+
+            if (node == theNodeOwner)
+            {
+                // A document node precedes all of its own nodes...
+                break;
+            }
+            else if (child != theNodeOwner &&
+                     isNodeAfterPredicate(*node, *child) == false)
+            {
+                // We found the insertion point...
+                break;
+            }
         }
+
+        ++current;
     }
 
     insertionPoint = current;
@@ -501,37 +539,8 @@ findInsertionPointLinearSearch(
 
 
 
-struct DocumentPredicate
-{
-    bool
-    operator()(
-            const XalanNode&    node1,
-            const XalanNode&    node2) const
-    {
-        // Always order a document node, or a node from another
-        // document after another node...
-        const XalanNode::NodeType   node1Type =
-            node1.getNodeType();
-
-        const XalanNode::NodeType   node2Type =
-            node2.getNodeType();
-
-        if ((node1Type == XalanNode::DOCUMENT_NODE ||
-             node1Type == XalanNode::DOCUMENT_FRAGMENT_NODE) &&
-            (node2Type == XalanNode::DOCUMENT_NODE ||
-             node2Type == XalanNode::DOCUMENT_FRAGMENT_NODE))
-        {
-            return true;
-        }
-        else
-        {
-            return node1.getOwnerDocument() != node2.getOwnerDocument();
-        }
-    }
-};
-
-
-
+// These predicates are only applied to two nodes of the same
+// document, neither of which is the document node.
 struct IndexPredicate
 {
     bool
@@ -541,12 +550,9 @@ struct IndexPredicate
     {
         assert(node1.getOwnerDocument() == node2.getOwnerDocument());
 
-        return m_documentPredicate(node1, node2) == true ? true : node1.getIndex() > node2.getIndex() ? true : false;
+        return node1.getIndex() > node2.getIndex() ? true : false;
     }
-
-    DocumentPredicate   m_documentPredicate;
 };
-
 
 
 
@@ -562,26 +568,17 @@ struct ExecutionContextPredicate
             const XalanNode&    node1,
             const XalanNode&    node2) const
     {
-        if (m_documentPredicate(node1, node2) == true)
-        {
-            return true;
-        }
-        else
-        {
-            assert(node1.getOwnerDocument() == node2.getOwnerDocument());
-            assert(
-                node1.getNodeType() != XalanNode::DOCUMENT_NODE &&
-                node1.getNodeType() != XalanNode::DOCUMENT_FRAGMENT_NODE &&
-                node2.getNodeType() != XalanNode::DOCUMENT_NODE &&
-                node2.getNodeType() != XalanNode::DOCUMENT_FRAGMENT_NODE);
+        assert(node1.getOwnerDocument() == node2.getOwnerDocument());
+        assert(
+            node1.getNodeType() != XalanNode::DOCUMENT_NODE &&
+            node1.getNodeType() != XalanNode::DOCUMENT_FRAGMENT_NODE &&
+            node2.getNodeType() != XalanNode::DOCUMENT_NODE &&
+            node2.getNodeType() != XalanNode::DOCUMENT_FRAGMENT_NODE);
 
-            return  m_executionContext.isNodeAfter(node1, node2);
-        }
+        return  m_executionContext.isNodeAfter(node1, node2);
     }
 
     XPathExecutionContext&  m_executionContext;
-
-    DocumentPredicate       m_documentPredicate;
 };
 
 
